@@ -10,7 +10,7 @@ import numpy as np
 from harness import common as C
 
 HEADER = """From Coq Require Import List ZArith QArith Bool. Import ListNotations.
-From TLV Require Import Base.Ops Model.Prox Corr.C12.
+From TLV Require Import Base.Ops Model.Prox Model.ProxDispatch Corr.C12.
 Local Open Scope nat_scope."""
 EP = "tensorly.tenalg.proximal."
 
@@ -409,20 +409,31 @@ def check_firm(name, par, route, a, out, rng):
 
 
 # ----------------------------------------------------------------------------- known, deliberately unfixed defects
+def model_agrees(f):
+    """the Coq model of the (deliberately unfixed) algorithm gave the implementation's output on this input: the failure is the
+    documented behaviour, not a new deviation of the code from the algorithm"""
+    return bool((f.get("extra") or {}).get("model_agrees"))
+
+
 def clf_inside_l1_ball(f):
     inp = f["inputs"]
-    if inp.get("op") != "soft_sparsity" or f["predicate"] not in ("soft_sparsity_optimal", "soft_sparsity_idempotent"):
+    if inp.get("op") != "soft_sparsity" or f["predicate"] not in ("soft_sparsity_optimal", "soft_sparsity_idempotent") or not model_agrees(f):
         return False
     a = np.asarray(inp["tensor"], float); m = a.reshape(a.shape[0], -1)
     return bool((np.abs(m).sum(axis=0) <= inp["param"] * (1 + 1e-12)).any())
 
 
 def clf_maxnorm(f):
-    return f["inputs"].get("op") == "normalize" and f["predicate"] == "normalize_optimal"
+    inp = f["inputs"]
+    if inp.get("op") != "normalize" or f["predicate"] != "normalize_optimal" or not model_agrees(f):
+        return False
+    a = np.asarray(inp["tensor"], float)
+    return f.get("observed") is not None and bool(np.allclose(np.asarray(f["observed"], float).reshape(a.shape), a / np.max(np.abs(a)), rtol=1e-12, atol=0))
 
 
 def clf_unimodal(f):
-    return f["inputs"].get("op") == "unimodality" and f["predicate"] in ("unimodality_optimal", "unimodality_idempotent")
+    return (f["inputs"].get("op") == "unimodality" and f["predicate"] in ("unimodality_optimal", "unimodality_idempotent")
+            and model_agrees(f))
 
 
 def clf_l2_zero(f):
@@ -605,7 +616,38 @@ def model_hard(v, k):
     return [v[i] if i in keep else 0.0 for i in range(len(v))]
 
 
-def op_lit(name, par, a, tape=None):
+KW_ORDER = ["non_negative", "l1_reg", "l2_reg", "l2_square_reg", "unimodality", "normalize", "simplex", "normalized_sparsity",
+            "soft_sparsity", "smoothness", "monotonicity", "hard_sparsity"]     # registration order of validate_constraints
+
+
+def routed_lit(name, par, a, route):
+    """the keyword arguments as written -> ORouted literal; the Coq model of validate_constraints selects operator and parameter"""
+    flat = [float(x) for x in np.asarray(a, float).reshape(-1)]
+    def qq(p):
+        return C.q(1) if p is None else C.q(float(p) if not isinstance(p, (int, np.integer)) else int(p))
+    specs = []
+    for spec in route["specs"]:
+        nm, style, mode, p0 = spec[:4]
+        entries = [(int(mode), p0)] + [(int(m), pm) for m, pm in (spec[4] if len(spec) > 4 else [])]
+        if style == "dict":
+            body = "(CDict [" + "; ".join(f"({m}%nat, {qq(pm)})" for m, pm in entries) + "])"
+        elif style == "list":
+            d = dict(entries)
+            body = "(CList [" + "; ".join(f"(Some {qq(d[i])})" if i in d else "None" for i in range(route["n_const"])) + "])"
+        else:
+            body = f"(CScalar {qq(p0)})"
+        specs.append(f"({KW_ORDER.index(KW[nm])}%nat, {body})")
+    aux = Fraction(0)
+    if name == "l2":
+        aux = sqrt_q(fr_sumsq(flat))
+    elif name == "normalized_sparsity":
+        aux = sqrt_q(fr_sumsq(model_hard(flat, int(par))))
+    return f"(ORouted {int(route['n_const'])}%nat {int(route['order'])}%nat [" + "; ".join(specs) + f"] {C.q(aux)})"
+
+
+def op_lit(name, par, a, tape=None, route=None):
+    if isinstance(route, dict) and route.get("n_const") is not None:
+        return routed_lit(name, par, a, route)
     flat = [float(x) for x in np.asarray(a, float).reshape(-1)]
     if name == "non_negative": return "ONonneg"
     if name == "soft": return f"(OSoft {C.q(float(par))})"
@@ -693,19 +735,22 @@ def evaluate(chk, name, par, a, route, kind, klass, rng, cases, meta):
         chk.finding(ep, inputs, f"the operator raised on a valid input: {out}", name + "_feasible")
         return
     out = np.asarray(out)
-    for pred, msg in predicates(name, par, a, out, route, rng):
-        chk.finding(ep, inputs, msg, pred, observed=out)
+    fails = predicates(name, par, a, out, route, rng)
+    emit = out.size == a.size and bool(np.all(np.isfinite(out)))
+    tape = None
+    if emit and name in ("svt", "procrustes"):
+        st2, tape = C.call_impl(svd_tape, a, timeout=60)
+        emit = st2 == "ok"
+    for pred, msg in fails:
+        # cid: the correspondence case of the same call; a known-finding classification additionally requires that the Coq model
+        # (the documented algorithm, as refuted in Props/C12.v) reproduces the implementation's output on this very input
+        chk.finding(ep, inputs, msg, pred, observed=out, extra={"cid": len(cases) if emit else None})
     # correspondence case
-    if out.size == a.size and np.all(np.isfinite(out)):
-        tape = None
-        if name in ("svt", "procrustes"):
-            st2, tape = C.call_impl(svd_tape, a, timeout=60)
-            if st2 != "ok":
-                return
+    if emit:
         atol, rtol = tolerances(name, par, a, kind)
         cid = len(cases)
         nrows = a.shape[0]
-        cases.append(f"({cid}%nat, {op_lit(name, par, a, tape)}, {rows_lit(a, nrows)}, {rows_lit(out, nrows)}, {C.q(atol)}, {C.q(rtol)})")
+        cases.append(f"({cid}%nat, {op_lit(name, par, a, tape, route)}, {rows_lit(a, nrows)}, {rows_lit(out, nrows)}, {C.q(atol)}, {C.q(rtol)})")
         meta.append(inputs)
         if cid % 401 == 0:
             chk.sample({"operator": name, "route": C.jsonable(route), "param": C.jsonable(par), "input": np.asarray(a).tolist(), "output": out.tolist(),
@@ -811,6 +856,9 @@ def run(chk):
                        "a case is non-trivial if the tensor has more than one entry and is not all zero; distinct key = (operator, shape, class, kind, route)")
     for b in broken:
         chk.broken.append({"what": "correspondence corr:C12 shard not evaluated", "detail": b})
+    for f in chk.findings:
+        cid = (f.get("extra") or {}).get("cid")
+        f["extra"]["model_agrees"] = bool(cid is not None and not broken and cid not in failing)
     for i in sorted(failing):
         chk.disagreement("corr:C12 (Model/Prox.v vs tensorly/tenalg/proximal.py)", meta[i])
         neighbourhood_search(chk, meta[i], rng)
